@@ -31,7 +31,15 @@
    duplicates), and the RAW value table of every VT/CONSTN/VAR/ADD/SUB/MUL/DIV/MIN/MAX/ITE/RESTRICT
    result and every EVAL must be the pointwise extracted operation on the operands' raw tables (all
    results of the model are normalised patterns, so a -0.0 or a NaN with payload in a result is a
-   violation of "NaN and signed zero normalised"). *)
+   violation of "NaN and signed zero normalised").
+
+   Package C10f: the SAME edge-level replay (pre)/(post)/EVAL/RESTRICT is run for kind=mtbddf with the
+   extracted generic function-level model instantiated for F64 (coq/DD/MtG.v at coq/DD/MtF64.v [f64_alg]:
+   [Model.f64m_apply_bin], [f64m_apply_ite], [f64m_restrict], [f64m_const], [f64m_var], [f64m_eval],
+   [f64m_cube_lits]).  Terminal values of the lifted snapshot are the RAW bit patterns; the hypothesis of
+   the C10_f64_* theorems is evaluated on every snapshot ([Model.f64m_ok_b]: well-formed and every terminal
+   value a normalised pattern; a stored -0.0 / second NaN pattern is reported as kind=prop).  The replay
+   is written once ([replay_case]) over a record of the instance's operations ([inst]). *)
 open Conv
 open Dd_types
 
@@ -62,9 +70,8 @@ let shift_ref (d : Z.t) (r : Model.ref) : Model.ref =
 let shift_edge d (e : Model.edge) = { e with Model.eref = shift_ref d e.Model.eref }
 let orig (ls : lsnap) (r : Model.ref) : Model.ref = shift_ref (Z.neg ls.base) r
 
-let relift (ps : psnap) : lsnap =
+let relift_with (terms : (Model.n * Model.n) list) (ps : psnap) : lsnap =
   let s = ps.snap in
-  let terms = List.map (fun (t, c) -> (t, Model.code (mt_val (int_of_n c)))) s.Model.s_terms in
   let els = Model.PositiveMap.elements s.Model.s_nodes in
   let minid = List.fold_left (fun m (id, _) -> Z.min m (z_of_pos id)) (Z.of_int max_int) els in
   let base = if els = [] then Z.zero else Z.pred minid in
@@ -80,14 +87,14 @@ let relift (ps : psnap) : lsnap =
   { ps; base; htab; ms = { s with Model.s_terms = terms; Model.s_nodes = nodes; Model.s_handles = handles } }
 
 (* value table of a reference of table [s] (variable order [l2v]) as value strings *)
-let vtab (s : Model.snap) (l2v : int array) (r : Model.ref) : string array =
+let vtab_with (val_str : Model.n -> string) (s : Model.snap) (l2v : int array) (r : Model.ref) : string array =
   let n = Array.length l2v in
   Array.init (1 lsl n) (fun a ->
       let c (lvl : Model.nat) : Model.nat =
         let l = int_of_nat lvl in
         if l < n && (a lsr l2v.(l)) land 1 = 1 then Model.O else Model.S Model.O in
       match Model.sem_edge s { Model.eref = r; Model.etag = false } c with
-      | Some v -> string_of_i64v (Model.decode v)
+      | Some v -> val_str v
       | None -> raise (Fail (Printf.sprintf "interpretation of %s undefined" (show_ref r))))
 
 let show_tab (t : string array) = String.concat " " (Array.to_list t)
@@ -101,46 +108,121 @@ let ref_exists (s : Model.snap) (r : Model.ref) : bool =
 let unchanged (s : Model.snap) (s' : Model.snap) =
   s'.Model.s_nodes == s.Model.s_nodes && s'.Model.s_terms == s.Model.s_terms
 
+let strip = function Some ((s', _), r) -> Some (s', r) | None -> None
+
+(* one instance of the function-level model: the operations of the extracted model for one terminal
+   type, on operator names / value strings of the trace.  [k] selects a cache instance / operand order
+   (the theorems hold for all of them). *)
+type inst = {
+  pfx : string;                                   (* prefix of the statistics keys *)
+  terms_of : psnap -> string -> (Model.n * Model.n) list;   (* terminal table in the model's coding *)
+  val_str : Model.n -> string;                    (* value code -> value string of the trace *)
+  ok_b : Model.snap -> bool;                      (* hypothesis of the theorems *)
+  ok_kind : string;                               (* verdict kind when [ok_b] is false *)
+  ok_msg : string;
+  bin : int -> Model.snap -> string -> Model.ref -> Model.ref -> (Model.snap * Model.ref) option;
+  ite : int -> Model.snap -> Model.ref -> Model.ref -> Model.ref -> (Model.snap * Model.ref) option;
+  restrict : int -> Model.snap -> Model.ref -> Model.ref -> (Model.snap * Model.ref) option;
+  const : Model.snap -> string -> Model.snap * Model.ref;
+  one : string;                                   (* the value 1 (cube construction) *)
+  var : Model.snap -> int -> (Model.snap * Model.ref) option;
+  eval : Model.snap -> Model.ref -> (Model.nat * bool) list -> string option;
+  cube_lits : Model.nat -> Model.snap -> Model.ref -> (Model.nat * bool) list option;
+}
+
+let fuel_of (s : Model.snap) = nat (List.length s.Model.s_l2v + 1)
+
+(* ---- MTBDD<I64>: coq/DD/ApplyMtbdd.v ---- *)
 let mop_of = function
   | "ADD" -> Model.MAdd | "SUB" -> Model.MSub | "MUL" -> Model.MMul
   | "DIV" -> Model.MDiv | "MIN" -> Model.MMin | "MAX" -> Model.MMax
   | o -> failwith ("mop " ^ o)
 
-let strip = function Some ((s', _), r) -> Some (s', r) | None -> None
+let i64_inst : inst = {
+  pfx = "c10b_";
+  terms_of = (fun ps _ -> List.map (fun (t, c) -> (t, Model.code (mt_val (int_of_n c)))) ps.snap.Model.s_terms);
+  val_str = (fun v -> string_of_i64v (Model.decode v));
+  ok_b = Model.mt_ok_b;
+  ok_kind = "corr";
+  ok_msg = "mt_ok_b false on a snapshot (hypothesis MtOK of the C10_mt theorems)";
+  bin = (fun k s op a b ->
+      let fuel = fuel_of s and op = mop_of op in
+      match k mod 3 with
+      | 0 -> strip (Model.mt_apply_bin gt_none Model.ac_get Model.ac_add fuel s [] op a b)
+      | 1 -> strip (Model.mt_apply_bin gt_id Model.ac_get Model.ac_add fuel s [] op a b)
+      | _ -> strip (Model.mt_apply_bin gt_id Model.nc_get Model.nc_add fuel s () op a b));
+  ite = (fun k s f g h ->
+      let fuel = fuel_of s in
+      if k mod 2 = 0 then strip (Model.mt_apply_ite Model.ac_get Model.ac_add fuel s [] f g h)
+      else strip (Model.mt_apply_ite Model.nc_get Model.nc_add fuel s () f g h));
+  restrict = (fun k s f vars ->
+      let fuel = fuel_of s in
+      if k mod 2 = 0 then strip (Model.mt_restrict Model.ac_get Model.ac_add fuel s [] f vars)
+      else strip (Model.mt_restrict Model.nc_get Model.nc_add fuel s () f vars));
+  const = (fun s v -> Model.mt_const s (i64v_of_string v));
+  one = "1";
+  var = (fun s v -> Model.mt_var s (nat v));
+  eval = (fun s r args -> match Model.mt_eval s r args with Some x -> Some (string_of_i64v x) | None -> None);
+  cube_lits = Model.cube_lits;
+}
 
-(* the binary apply with a cache instance / operand order chosen by [k] (the theorems hold for all) *)
-let run_bin (k : int) (s : Model.snap) (op : Model.mop) (a : Model.ref) (b : Model.ref) =
-  let fuel = nat (List.length s.Model.s_l2v + 1) in
-  match k mod 3 with
-  | 0 -> strip (Model.mt_apply_bin gt_none Model.ac_get Model.ac_add fuel s [] op a b)
-  | 1 -> strip (Model.mt_apply_bin gt_id Model.ac_get Model.ac_add fuel s [] op a b)
-  | _ -> strip (Model.mt_apply_bin gt_id Model.nc_get Model.nc_add fuel s () op a b)
+(* ---- MTBDD<F64>: coq/DD/MtG.v instantiated by coq/DD/MtF64.v; values = 16-digit hex bit patterns ---- *)
+let z_of_hex (s : string) = Z.of_string ("0x" ^ s)
+let hex_of_z (x : Z.t) = Z.format "%016x" x
+let opcode_of = function
+  | "ADD" -> 0 | "SUB" -> 1 | "MUL" -> 2 | "DIV" -> 3 | "MIN" -> 4 | "MAX" -> 5
+  | o -> failwith ("opcode " ^ o)
 
-let run_ite (k : int) (s : Model.snap) (f : Model.ref) (g : Model.ref) (h : Model.ref) =
-  let fuel = nat (List.length s.Model.s_l2v + 1) in
-  if k mod 2 = 0 then strip (Model.mt_apply_ite Model.ac_get Model.ac_add fuel s [] f g h)
-  else strip (Model.mt_apply_ite Model.nc_get Model.nc_add fuel s () f g h)
-
-let run_restrict (k : int) (s : Model.snap) (f : Model.ref) (vars : Model.ref) =
-  let fuel = nat (List.length s.Model.s_l2v + 1) in
-  if k mod 2 = 0 then strip (Model.mt_restrict Model.ac_get Model.ac_add fuel s [] f vars)
-  else strip (Model.mt_restrict Model.nc_get Model.nc_add fuel s () f vars)
+let f64_inst : inst = {
+  pfx = "c10b_f64m_";
+  (* RAW patterns of the "T id v" pieces (the shared parser interns normalised values) *)
+  terms_of = (fun _ body ->
+      List.filter_map
+        (fun piece ->
+          match split_ws piece with
+          | [ "T"; id; v ] -> Some (n_of_string id, n_of_z (z_of_hex v))
+          | _ -> None)
+        (split_bar body));
+  val_str = (fun v -> hex_of_z (z_of_n v));
+  ok_b = Model.f64m_ok_b;
+  ok_kind = "prop";
+  ok_msg = "prop=C10 mtbddf: f64m_ok_b false on a snapshot: the table is not well-formed or a terminal holds a pattern that is not normalised (-0.0 or a NaN other than 7ff8000000000000): hypothesis MtOK of the C10_f64 theorems, 'NaN and signed zero normalised'";
+  bin = (fun k s op a b ->
+      let fuel = fuel_of s and op = n_of_int (opcode_of op) in
+      match k mod 3 with
+      | 0 -> strip (Model.f64m_apply_bin gt_none Model.ac_get Model.ac_add fuel s [] op a b)
+      | 1 -> strip (Model.f64m_apply_bin gt_id Model.ac_get Model.ac_add fuel s [] op a b)
+      | _ -> strip (Model.f64m_apply_bin gt_id Model.nc_get Model.nc_add fuel s () op a b));
+  ite = (fun k s f g h ->
+      let fuel = fuel_of s in
+      if k mod 2 = 0 then strip (Model.f64m_apply_ite Model.ac_get Model.ac_add fuel s [] f g h)
+      else strip (Model.f64m_apply_ite Model.nc_get Model.nc_add fuel s () f g h));
+  restrict = (fun k s f vars ->
+      let fuel = fuel_of s in
+      if k mod 2 = 0 then strip (Model.f64m_restrict Model.ac_get Model.ac_add fuel s [] f vars)
+      else strip (Model.f64m_restrict Model.nc_get Model.nc_add fuel s () f vars));
+  const = (fun s v -> Model.f64m_const s (mz_of_z (z_of_hex v)));     (* F64::from inside the model *)
+  one = "3ff0000000000000";
+  var = (fun s v -> Model.f64m_var s (nat v));
+  eval = (fun s r args -> match Model.f64m_eval s r args with Some x -> Some (hex_of_z (z_of_n x)) | None -> None);
+  cube_lits = Model.f64m_cube_lits;
+}
 
 (* the cube of RESTRICT, built as in the harness: acc = 1; for v = n-1 .. 0: acc = x_v * acc resp. (1 - x_v) * acc *)
-let build_cube (k : int) (s : Model.snap) (v2l : int array) (pos : int) (neg : int) : Model.snap * Model.ref =
+let build_cube (ins : inst) (k : int) (s : Model.snap) (v2l : int array) (pos : int) (neg : int) : Model.snap * Model.ref =
   let n = Array.length v2l in
-  let s, one = Model.mt_const s Model.i64_one in
+  let s, one = ins.const s ins.one in
   let st = ref s and acc = ref one in
   let need = function Some x -> x | None -> raise (Fail "model undefined while building the cube") in
   for v = n - 1 downto 0 do
     if (pos lsr v) land 1 = 1 then begin
-      let s1, x = need (Model.mt_var !st (nat v)) in
-      let s2, a = need (run_bin k s1 Model.MMul x !acc) in
+      let s1, x = need (ins.var !st v) in
+      let s2, a = need (ins.bin k s1 "MUL" x !acc) in
       st := s2; acc := a
     end else if (neg lsr v) land 1 = 1 then begin
-      let s1, x = need (Model.mt_var !st (nat v)) in
-      let s2, nx = need (run_bin k s1 Model.MSub one x) in
-      let s3, a = need (run_bin k s2 Model.MMul nx !acc) in
+      let s1, x = need (ins.var !st v) in
+      let s2, nx = need (ins.bin k s1 "SUB" one x) in
+      let s3, a = need (ins.bin k s2 "MUL" nx !acc) in
       st := s3; acc := a
     end
   done;
@@ -152,17 +234,15 @@ let build_cube (k : int) (s : Model.snap) (v2l : int array) (pos : int) (neg : i
            if (pos lsr v) land 1 = 1 then Some (v2l.(v), true)
            else if (neg lsr v) land 1 = 1 then Some (v2l.(v), false) else None)
          (List.init n (fun v -> v))) in
-  (match Model.cube_lits fuel !st !acc with
+  (match ins.cube_lits fuel !st !acc with
    | None -> raise (Fail "cube_lits does not recognise the cube built from the literals")
    | Some l ->
      let got = List.map (fun (lv, b) -> (int_of_nat lv, b)) l in
      if got <> expect then raise (Fail "cube_lits returns other literals than requested"));
-  stat "c10b_cubes" 1;
+  stat (ins.pfx ^ "cubes") 1;
   (!st, !acc)
 
-(* ---- MTBDD<F64> ------------------------------------------------------------------------ *)
-let z_of_hex (s : string) = Z.of_string ("0x" ^ s)
-let hex_of_z (x : Z.t) = Z.format "%016x" x
+(* ---- MTBDD<F64>: pointwise check with the scalar model ------------------------------------ *)
 let f64_memo : (string * string * string, string) Hashtbl.t = Hashtbl.create 1024
 let f64_bin (op : string) (a : string) (b : string) : string =
   match Hashtbl.find_opt f64_memo (op, a, b) with
@@ -226,11 +306,11 @@ type fpend = {
   fpre : fsnap option; fops : (int * int) list; fdst : (int * int) option;
 }
 
-let process_f64 (c : case) : unit =
-  let failed = ref false in
+let process_f64 (c : case) : (int * string * string) option =
+  let failed = ref None in
   let fail step msg =
     stat "c10b_f64_bad" 1;
-    if not !failed then (failed := true; verdict_bad c step "prop" ("prop=C10 mtbddf: " ^ msg)) in
+    if !failed = None then failed := Some (step, "prop", "prop=C10 mtbddf: " ^ msg) in
   let versions : (int, int) Hashtbl.t = Hashtbl.create 32 in
   let epoch = ref 0 in
   let ver slot = (!epoch * 1000000) + (try Hashtbl.find versions slot with Not_found -> 0) in
@@ -373,151 +453,167 @@ let process_f64 (c : case) : unit =
       end)
     c.lines;
   stat "c10b_f64_cases" 1;
-  if not !failed then verdict_ok c
+  !failed
+
+(* edge-level replay of the extracted function-level model [ins] on the trace of one case; returns the
+   first failure (step, verdict kind, message) *)
+let replay_case (ins : inst) (kname : string) (c : case) : (int * string * string) option =
+  let st k = stat (ins.pfx ^ k) in
+  let vtab = vtab_with ins.val_str in
+  let failed = ref None in
+  let failk step kind msg =
+    st "bad" 1;
+    if !failed = None then failed := Some (step, kind, msg) in
+  let fail step msg = failk step "corr" ("prop=C10 model: " ^ msg) in
+  let versions : (int, int) Hashtbl.t = Hashtbl.create 32 in
+  let epoch = ref 0 in
+  let ver slot = (!epoch * 1000000) + (try Hashtbl.find versions slot with Not_found -> 0) in
+  let bump slot = Hashtbl.replace versions slot (1 + try Hashtbl.find versions slot with Not_found -> 0) in
+  let cur : lsnap option ref = ref None in
+  let fresh = ref false in
+  let pending : pend list ref = ref [] in
+
+  (* run the model for operation [p] on table [ls] with the operand edges [get slot];
+     returns the table before the (main) operation, the result table and the result *)
+  let run_op (p : pend) (ls : lsnap) (get : string -> Model.ref) : (Model.snap * Model.snap * Model.ref) option =
+    let s = ls.ms in
+    let k = p.pstep in
+    match p.ptoks with
+    | [ ("ADD" | "SUB" | "MUL" | "DIV" | "MIN" | "MAX") as op; _; a; b ] ->
+      (match ins.bin k s op (get a) (get b) with Some (s', r) -> Some (s, s', r) | None -> None)
+    | [ "ITE"; _; f; g; h ] ->
+      (match ins.ite k s (get f) (get g) (get h) with Some (s', r) -> Some (s, s', r) | None -> None)
+    | [ "RESTRICT"; _; a; pos; neg ] ->
+      let s1, cube = build_cube ins k s ls.ps.v2l (int_of_string pos) (int_of_string neg) in
+      (match ins.restrict k s1 (get a) cube with Some (s', r) -> Some (s1, s', r) | None -> None)
+    | [ "CONSTN"; _; v ] -> let s', r = ins.const s v in Some (s, s', r)
+    | [ "VAR"; _; v ] ->
+      (match ins.var s (int_of_string v) with Some (s', r) -> Some (s, s', r) | None -> None)
+    | _ -> None in
+  let operand_names (toks : string list) : string list =
+    match toks with
+    | [ ("ADD" | "SUB" | "MUL" | "DIV" | "MIN" | "MAX"); _; a; b ] -> [ a; b ]
+    | [ "ITE"; _; f; g; h ] -> [ f; g; h ]
+    | [ "RESTRICT"; _; a; _; _ ] -> [ a ]
+    | [ "EVAL"; a ] -> [ a ]
+    | _ -> [] in
+
+  let resolve (post : lsnap) =
+    List.iter
+      (fun p ->
+        let what = String.concat " " p.ptoks in
+        try
+          let handle (ls : lsnap) (name : string) : Model.ref = Hashtbl.find ls.htab (slot_of name) in
+          match p.ptoks, p.pdst with
+          | [ "EVAL"; a ], _ ->
+            if List.for_all (fun (sl, v) -> ver sl = v) p.pops then begin
+              match split_ws p.pres with
+              | "vt" :: nn :: vals when int_of_string nn = Array.length post.ps.l2v ->
+                let n = int_of_string nn in
+                let r = handle post a in
+                st "eval" 1;
+                List.iteri
+                  (fun idx impl ->
+                    let args = List.init n (fun v -> (nat v, (idx lsr v) land 1 = 1)) in
+                    match ins.eval post.ms r args with
+                    | Some x ->
+                      if x <> String.lowercase_ascii impl then
+                        raise (Fail (Printf.sprintf "%s: eval at assignment %d is %s, the model's mt_eval gives %s" what idx impl x))
+                    | None -> raise (Fail (what ^ ": the model's mt_eval is undefined")))
+                  vals
+              | _ -> ()
+            end
+          | _, Some (dslot, dver) when ver dslot = dver ->
+            let dst_edge = Hashtbl.find post.htab dslot in
+            let real_tab = vtab post.ms post.ps.l2v dst_edge in
+            (* (pre) the model builds the result on the pre-state table *)
+            (match p.ppre with
+             | Some pre when pre.ps.l2v = post.ps.l2v ->
+               (match run_op p pre (handle pre) with
+                | None -> raise (Fail (what ^ ": the model is undefined on the pre-state where the implementation returned a result"))
+                | Some (_, s', r) ->
+                  st "runs_pre" 1;
+                  if not (unchanged pre.ms s') then st "pre_created" 1;
+                  let mt = vtab s' pre.ps.l2v r in
+                  if mt <> real_tab then
+                    raise (Fail (Printf.sprintf "%s: model result values [%s], implementation [%s]" what (show_tab mt) (show_tab real_tab)));
+                  if ref_exists pre.ms r && pre.ps.gc = post.ps.gc && pre.ps.reorder = post.ps.reorder then begin
+                    st "pre_edge_cmp" 1;
+                    if not (ref_eq (orig pre r) (orig post dst_edge)) then
+                      raise (Fail (Printf.sprintf "%s: the model finds the existing edge %s, the implementation returned %s" what (show_ref (orig pre r)) (show_ref (orig post dst_edge))))
+                  end)
+             | _ -> ());
+            (* (post) the result exists: the model must return that very edge and create nothing *)
+            if List.for_all (fun (sl, v) -> ver sl = v) p.pops then begin
+              match run_op p post (handle post) with
+              | None -> raise (Fail (what ^ ": the model is undefined on the post-state"))
+              | Some (s0, s', r) ->
+                st "runs_post" 1;
+                if not (ref_eq r dst_edge) then
+                  raise (Fail (Printf.sprintf "%s: on the table that holds the result the model returns %s, the implementation's handle is %s" what (show_ref (orig post r)) (show_ref (orig post dst_edge))));
+                if not (unchanged s0 s') then
+                  raise (Fail (what ^ ": the model creates nodes/terminals although the result exists"))
+            end
+          | _ -> st "unresolved" 1
+        with
+        | Fail m -> fail p.pstep m
+        | Not_found -> st "unresolved" 1)
+      (List.rev !pending);
+    pending := [] in
+
+  List.iteri
+    (fun i l ->
+      if l = "HANG" || starts_with l "PANIC" || starts_with l "CRASH" then ()
+      else begin
+        let ops, res = split_arrow l in
+        let toks = split_ws ops in
+        match toks with
+        | [ "SNAP" ] ->
+          (try
+             let ps = parse_snapshot kname res in
+             let ls = relift_with (ins.terms_of ps res) ps in
+             st "snapshots" 1;
+             if not (ins.ok_b ls.ms) then (failk i ins.ok_kind ins.ok_msg; pending := [])
+             else resolve ls;
+             cur := Some ls; fresh := true
+           with Failure m -> fail i ("driver: " ^ m))
+        | _ when starts_with res "err" -> ()      (* skip / oom: nothing assigned, nothing executed *)
+        | [] -> ()
+        | op :: rest ->
+          let pre = if !fresh then !cur else None in
+          (match op, rest with
+           | ("ADD" | "SUB" | "MUL" | "DIV" | "MIN" | "MAX" | "ITE" | "RESTRICT" | "CONSTN" | "VAR"), dst :: _ ->
+             let pops = List.map (fun a -> (slot_of a, ver (slot_of a))) (operand_names toks) in
+             bump (slot_of dst);
+             pending := { pstep = i; ptoks = toks; pres = res; ppre = pre; pops;
+                          pdst = Some (slot_of dst, ver (slot_of dst)) } :: !pending
+           | "EVAL", [ a ] ->
+             pending := { pstep = i; ptoks = toks; pres = res; ppre = pre;
+                          pops = [ (slot_of a, ver (slot_of a)) ]; pdst = None } :: !pending
+           | ("VT" | "CLONE"), dst :: _ -> bump (slot_of dst)
+           | ("DROP" | "DROPT"), [ a ] -> bump (slot_of a)
+           | "DROPALL", _ -> incr epoch
+           | _ -> ());
+          fresh := false
+      end)
+    c.lines;
+  st "cases" 1;
+  !failed
 
 let () =
   iter_cases stdin (fun c ->
       let kname = match param c "kind" with Some k -> k | None -> "bdd" in
-      if kname = "mtbddf" then process_f64 c
-      else if kname <> "mtbdd" then verdict_ok c
-      else begin
-        let failed = ref false in
-        let fail step msg =
-          stat "c10b_bad" 1;
-          if not !failed then (failed := true; verdict_bad c step "corr" ("prop=C10 model: " ^ msg)) in
-        let versions : (int, int) Hashtbl.t = Hashtbl.create 32 in
-        let epoch = ref 0 in
-        let ver slot = (!epoch * 1000000) + (try Hashtbl.find versions slot with Not_found -> 0) in
-        let bump slot = Hashtbl.replace versions slot (1 + try Hashtbl.find versions slot with Not_found -> 0) in
-        let cur : lsnap option ref = ref None in
-        let fresh = ref false in
-        let pending : pend list ref = ref [] in
-
-        (* run the model for operation [p] on table [ls] with the operand edges [get slot];
-           returns the table before the (main) operation, the result table and the result *)
-        let run_op (p : pend) (ls : lsnap) (get : string -> Model.ref) : (Model.snap * Model.snap * Model.ref) option =
-          let s = ls.ms in
-          let k = p.pstep in
-          match p.ptoks with
-          | [ ("ADD" | "SUB" | "MUL" | "DIV" | "MIN" | "MAX") as op; _; a; b ] ->
-            (match run_bin k s (mop_of op) (get a) (get b) with Some (s', r) -> Some (s, s', r) | None -> None)
-          | [ "ITE"; _; f; g; h ] ->
-            (match run_ite k s (get f) (get g) (get h) with Some (s', r) -> Some (s, s', r) | None -> None)
-          | [ "RESTRICT"; _; a; pos; neg ] ->
-            let s1, cube = build_cube k s ls.ps.v2l (int_of_string pos) (int_of_string neg) in
-            (match run_restrict k s1 (get a) cube with Some (s', r) -> Some (s1, s', r) | None -> None)
-          | [ "CONSTN"; _; v ] -> let s', r = Model.mt_const s (i64v_of_string v) in Some (s, s', r)
-          | [ "VAR"; _; v ] ->
-            (match Model.mt_var s (nat (int_of_string v)) with Some (s', r) -> Some (s, s', r) | None -> None)
-          | _ -> None in
-        let operand_names (toks : string list) : string list =
-          match toks with
-          | [ ("ADD" | "SUB" | "MUL" | "DIV" | "MIN" | "MAX"); _; a; b ] -> [ a; b ]
-          | [ "ITE"; _; f; g; h ] -> [ f; g; h ]
-          | [ "RESTRICT"; _; a; _; _ ] -> [ a ]
-          | [ "EVAL"; a ] -> [ a ]
-          | _ -> [] in
-
-        let resolve (post : lsnap) =
-          List.iter
-            (fun p ->
-              let what = String.concat " " p.ptoks in
-              try
-                let handle (ls : lsnap) (name : string) : Model.ref = Hashtbl.find ls.htab (slot_of name) in
-                match p.ptoks, p.pdst with
-                | [ "EVAL"; a ], _ ->
-                  if List.for_all (fun (sl, v) -> ver sl = v) p.pops then begin
-                    match split_ws p.pres with
-                    | "vt" :: nn :: vals when int_of_string nn = Array.length post.ps.l2v ->
-                      let n = int_of_string nn in
-                      let r = handle post a in
-                      stat "c10b_eval" 1;
-                      List.iteri
-                        (fun idx impl ->
-                          let args = List.init n (fun v -> (nat v, (idx lsr v) land 1 = 1)) in
-                          match Model.mt_eval post.ms r args with
-                          | Some x ->
-                            if string_of_i64v x <> impl then
-                              raise (Fail (Printf.sprintf "%s: eval at assignment %d is %s, the model's mt_eval gives %s" what idx impl (string_of_i64v x)))
-                          | None -> raise (Fail (what ^ ": the model's mt_eval is undefined")))
-                        vals
-                    | _ -> ()
-                  end
-                | _, Some (dslot, dver) when ver dslot = dver ->
-                  let dst_edge = Hashtbl.find post.htab dslot in
-                  let real_tab = vtab post.ms post.ps.l2v dst_edge in
-                  (* (pre) the model builds the result on the pre-state table *)
-                  (match p.ppre with
-                   | Some pre when pre.ps.l2v = post.ps.l2v ->
-                     (match run_op p pre (handle pre) with
-                      | None -> raise (Fail (what ^ ": the model is undefined on the pre-state where the implementation returned a result"))
-                      | Some (_, s', r) ->
-                        stat "c10b_runs_pre" 1;
-                        if not (unchanged pre.ms s') then stat "c10b_pre_created" 1;
-                        let mt = vtab s' pre.ps.l2v r in
-                        if mt <> real_tab then
-                          raise (Fail (Printf.sprintf "%s: model result values [%s], implementation [%s]" what (show_tab mt) (show_tab real_tab)));
-                        if ref_exists pre.ms r && pre.ps.gc = post.ps.gc && pre.ps.reorder = post.ps.reorder then begin
-                          stat "c10b_pre_edge_cmp" 1;
-                          if not (ref_eq (orig pre r) (orig post dst_edge)) then
-                            raise (Fail (Printf.sprintf "%s: the model finds the existing edge %s, the implementation returned %s" what (show_ref (orig pre r)) (show_ref (orig post dst_edge))))
-                        end)
-                   | _ -> ());
-                  (* (post) the result exists: the model must return that very edge and create nothing *)
-                  if List.for_all (fun (sl, v) -> ver sl = v) p.pops then begin
-                    match run_op p post (handle post) with
-                    | None -> raise (Fail (what ^ ": the model is undefined on the post-state"))
-                    | Some (s0, s', r) ->
-                      stat "c10b_runs_post" 1;
-                      if not (ref_eq r dst_edge) then
-                        raise (Fail (Printf.sprintf "%s: on the table that holds the result the model returns %s, the implementation's handle is %s" what (show_ref (orig post r)) (show_ref (orig post dst_edge))));
-                      if not (unchanged s0 s') then
-                        raise (Fail (what ^ ": the model creates nodes/terminals although the result exists"))
-                  end
-                | _ -> stat "c10b_unresolved" 1
-              with
-              | Fail m -> fail p.pstep m
-              | Not_found -> stat "c10b_unresolved" 1)
-            (List.rev !pending);
-          pending := [] in
-
-        List.iteri
-          (fun i l ->
-            if l = "HANG" || starts_with l "PANIC" || starts_with l "CRASH" then ()
-            else begin
-              let ops, res = split_arrow l in
-              let toks = split_ws ops in
-              match toks with
-              | [ "SNAP" ] ->
-                (try
-                   let ls = relift (parse_snapshot kname res) in
-                   stat "c10b_snapshots" 1;
-                   if not (Model.mt_ok_b ls.ms) then
-                     fail i "mt_ok_b false on a snapshot (hypothesis MtOK of the C10_mt theorems)"
-                   else resolve ls;
-                   cur := Some ls; fresh := true
-                 with Failure m -> fail i ("driver: " ^ m))
-              | _ when starts_with res "err" -> ()      (* skip / oom: nothing assigned, nothing executed *)
-              | [] -> ()
-              | op :: rest ->
-                let pre = if !fresh then !cur else None in
-                (match op, rest with
-                 | ("ADD" | "SUB" | "MUL" | "DIV" | "MIN" | "MAX" | "ITE" | "RESTRICT" | "CONSTN" | "VAR"), dst :: _ ->
-                   let pops = List.map (fun a -> (slot_of a, ver (slot_of a))) (operand_names toks) in
-                   bump (slot_of dst);
-                   pending := { pstep = i; ptoks = toks; pres = res; ppre = pre; pops;
-                                pdst = Some (slot_of dst, ver (slot_of dst)) } :: !pending
-                 | "EVAL", [ a ] ->
-                   pending := { pstep = i; ptoks = toks; pres = res; ppre = pre;
-                                pops = [ (slot_of a, ver (slot_of a)) ]; pdst = None } :: !pending
-                 | ("VT" | "CLONE"), dst :: _ -> bump (slot_of dst)
-                 | ("DROP" | "DROPT"), [ a ] -> bump (slot_of a)
-                 | "DROPALL", _ -> incr epoch
-                 | _ -> ());
-                fresh := false
-            end)
-          c.lines;
-        stat "c10b_cases" 1;
-        if not !failed then verdict_ok c
-      end);
+      let res =
+        if kname = "mtbddf" then begin
+          (* the property's own predicate first (pointwise scalar model, structure audits), then the
+             function-level model at edge level *)
+          match process_f64 c with
+          | Some f -> Some f
+          | None -> replay_case f64_inst kname c
+        end
+        else if kname = "mtbdd" then replay_case i64_inst kname c
+        else None in
+      match res with
+      | None -> verdict_ok c
+      | Some (step, kind, msg) -> verdict_bad c step kind msg);
   dump_stats ()
